@@ -981,15 +981,23 @@ impl ImageHandler for SixelImageHandler {
 
         self.size += sixel_image.len();
         self.imgs.put(img.hash(), sixel_image);
-        #[cfg(not(feature = "verif-hooks"))]
-        let cache_size = IMAGE_CACHE_SIZE;
+        // verification hook: a handler built with a smaller budget runs the eviction loop below
+        // (unchanged) with its size offset by the difference, so the loop itself stays as written
         #[cfg(feature = "verif-hooks")]
-        let cache_size = self.verif_cache_size;
-        while self.size > cache_size {
+        let verif_pad = IMAGE_CACHE_SIZE - self.verif_cache_size.min(IMAGE_CACHE_SIZE);
+        #[cfg(feature = "verif-hooks")]
+        {
+            self.size += verif_pad;
+        }
+        while self.size > IMAGE_CACHE_SIZE {
             let Some((_, lru_image)) = self.imgs.pop_lru() else {
                 break;
             };
             self.size -= lru_image.len();
+        }
+        #[cfg(feature = "verif-hooks")]
+        {
+            self.size -= verif_pad;
         }
 
         Ok(())
